@@ -345,7 +345,7 @@ func (h *HardwrapScanner) Scan() bool {
 	h.line = []vaxis.Cell{}
 	// Iterate through cells until we find a linebreak
 	for i, cell := range h.cells {
-		if cell.Grapheme == "\n" {
+		if uniseg.HasTrailingLineBreakInString(cell.Grapheme) {
 			if i == len(h.cells)-1 {
 				break
 			}
